@@ -6,7 +6,7 @@ From Coq Require Floats.
 From Coq Require Strings.String.
 Import Coq.Strings.String.StringSyntax.
 From EvyV Require Import Base BuiltinTy Builtins BuiltinsSpec BuiltinsProofs.
-From EvyV.Gen Require Import BuiltinSigs.
+From EvyV.Gen Require Import BuiltinSigs DocLiterals.
 Import ListNotations.
 Local Open Scope string_scope.
 Local Open Scope list_scope.
@@ -150,16 +150,40 @@ Theorem C13_str2bool_literals : forall s,
 Proof. intros s. split; [apply parse_bool_true|]. split; [apply parse_bool_false | apply parse_bool_none]. Qed.
 Print Assumptions C13_str2bool_literals.
 
-(* docs/builtins.md lists true True TRUE 1 / false False FALSE 0 only *)
-Definition documented_bool_literals : list str :=
+(* str2bool accepts exactly the literals docs/builtins.md documents — the
+   documented lists are REGENERATED from docs/builtins.md (Gen/DocLiterals.v), so
+   a drift between the documentation and strconv.ParseBool's literal set breaks
+   this obligation *)
+Theorem C13_str2bool_documented_literals : forall s,
+  (parse_bool s = Some true <-> In s (map s_ doc_true_literals)) /\
+  (parse_bool s = Some false <-> In s (map s_ doc_false_literals)) /\
+  (parse_bool s = None <-> ~ In s (map s_ (doc_true_literals ++ doc_false_literals))).
+Proof.
+  assert (T1 : forallb (fun x => mem_str x true_literals) (map s_ doc_true_literals) = true) by (vm_compute; reflexivity).
+  assert (T2 : forallb (fun x => mem_str x (map s_ doc_true_literals)) true_literals = true) by (vm_compute; reflexivity).
+  assert (F1 : forallb (fun x => mem_str x false_literals) (map s_ doc_false_literals) = true) by (vm_compute; reflexivity).
+  assert (F2 : forallb (fun x => mem_str x (map s_ doc_false_literals)) false_literals = true) by (vm_compute; reflexivity).
+  rewrite forallb_forall in T1, T2, F1, F2.
+  assert (TT : forall s, In s (map s_ doc_true_literals) <-> In s true_literals).
+  { intros s. split; intros H; [apply T1 in H | apply T2 in H]; apply mem_str_In in H; exact H. }
+  assert (FF : forall s, In s (map s_ doc_false_literals) <-> In s false_literals).
+  { intros s. split; intros H; [apply F1 in H | apply F2 in H]; apply mem_str_In in H; exact H. }
+  intros s. rewrite TT, FF. split; [apply parse_bool_true|]. split; [apply parse_bool_false|].
+  rewrite parse_bool_none, map_app, !in_app_iff, TT, FF. reflexivity.
+Qed.
+Print Assumptions C13_str2bool_documented_literals.
+
+(* regression (docs fixed by 3dac639): docs/builtins.md used to list only
+   true True TRUE 1 / false False FALSE 0 *)
+Definition documented_bool_literals_before_fix : list str :=
   [s_ "true"; s_ "True"; s_ "TRUE"; s_ "1"; s_ "false"; s_ "False"; s_ "FALSE"; s_ "0"].
-Theorem C13_str2bool_doc_literals_refuted :
-  exists s, ~ In s documented_bool_literals /\ parse_bool s = Some true.
+Theorem C13_str2bool_doc_literals_before_fix_refuted :
+  exists s, ~ In s documented_bool_literals_before_fix /\ parse_bool s = Some true.
 Proof.
   exists (s_ "t"). split; [|vm_compute; reflexivity].
   intros H. apply mem_str_In in H. vm_compute in H. discriminate.
 Qed.
-Print Assumptions C13_str2bool_doc_literals_refuted.
+Print Assumptions C13_str2bool_doc_literals_before_fix_refuted.
 
 (* "Otherwise, the function returns 0 and sets err" (model in force, since e40074a):
    whenever str2num sets err the result is 0 and errmsg names the input *)
